@@ -68,8 +68,14 @@ class Env:
         }
 
 def sym_method(M, name, known_types):
-    """a method string that is one of the known METHOD constants or something else"""
-    v = M.fresh_bv(name, 32)
-    ids = {t: models.str_term(M, Str('ASSOC:%s:METHOD' % t)) for t in known_types}
-    s = SymStr(v); s.lower = s
-    return s, v, ids
+    """a method string that is one of the known METHOD constants or some other text (5 symbolic printable ASCII bytes, so that
+    prefix / character tests the server makes on unknown method names are decided by the solver)"""
+    v = M.fresh_bv(name, 32); M.declare_domain(v, list(range(len(known_types) + 1)))
+    ids = {t: z3.BitVecVal(i, 32) for i, t in enumerate(known_types)}
+    for i, t in enumerate(known_types):
+        if M.branch(v == i):
+            s = Str('ASSOC:%s:METHOD' % t); return s, v, ids
+    bs = []
+    for k in range(5):
+        b = M.fresh_bv('%s_byte%d' % (name, k), 8); M.assume(z3.And(z3.UGE(b, 0x21), z3.ULE(b, 0x7E))); bs.append(b)
+    return Str(bs), v, ids
